@@ -520,6 +520,62 @@ pub(crate) mod verif_js_op {
         }
     }
 
+    // ---- the same helpers on real JSON numbers, conversions NOT stubbed: JSON integers convert to their
+    // double before the operation (so 2^53+1 behaves as 2^53), whatever their spelling
+    const INT_GRID: [i64; 10] = [0, 1, 2, 3, -7, 10, 9007199254740992, 9007199254740993, i64::MAX, i64::MIN];
+    fn grid_number(sel: usize, as_float: bool) -> Number {
+        let i = INT_GRID[sel];
+        if as_float { Number::from_f64(i as f64).unwrap() } else { Number::from(i) }
+    }
+    pub(crate) fn body_arith_numbers(which: u8) {
+        let sa: usize = kani::any();
+        let sb: usize = kani::any();
+        kani::assume(sa < 10 && sb < 10);
+        let fa: bool = kani::any();
+        let fb: bool = kani::any();
+        let na = grid_number(sa, fa);
+        let nb = grid_number(sb, fb);
+        let (x, y) = (na.as_f64().unwrap(), nb.as_f64().unwrap());
+        let a = MD::new(Value::Number(na));
+        let b = MD::new(Value::Number(nb));
+        #[cfg(verif_replay)]
+        eprintln!("REPLAY-INPUT: arithmetic helper {} on a = {}  b = {}", which, &*a, &*b);
+        let r = MD::new(match which {
+            0 => abstract_minus(&a, &b),
+            1 => abstract_div(&a, &b),
+            _ => abstract_mod(&a, &b),
+        });
+        kani::cover!(true, "returned");
+        let expect = match which {
+            0 => x - y,
+            1 => x / y,
+            _ => x % y,
+        };
+        match &*r {
+            Ok(v) => assert!(same_f64(*v, expect), "arithmetic on JSON numbers must be the IEEE-754 operation on their doubles (an integer above 2^53 is its nearest double)"),
+            Err(_) => assert!(false, "two JSON numbers are always numeric operands"),
+        }
+    }
+    macro_rules! arith_numbers_harness {
+        ($name:ident, $which:expr) => {
+            #[cfg_attr(kani, kani::proof)]
+            #[cfg_attr(kani, kani::stub(crate::js_op::to_string, to_string_stub))]
+            #[cfg_attr(kani, kani::stub(std::fmt::format, crate::verif_support::fmt_stub))]
+            pub(crate) fn $name() {
+                body_arith_numbers($which);
+            }
+        };
+    }
+    //@ob name=C10.abstract_minus.numbers harness=k_c10_minus_numbers props=C10,C01 strength=bounded bound="operands: 10 integers (0,1,2,3,-7,10,2^53,2^53+1,i64::MAX,i64::MIN), each spelled as integer or as float" fns=js_op::abstract_minus,js_op::to_number stubs=2 replay=generic timeout=300
+    //@ desc="abstract_minus on JSON numbers = IEEE subtraction of their doubles (real conversions)"
+    arith_numbers_harness!(k_c10_minus_numbers, 0);
+    //@ob name=C10.abstract_div.numbers harness=k_c10_div_numbers props=C10,C01 strength=bounded bound="operands: 10 integers (0,1,2,3,-7,10,2^53,2^53+1,i64::MAX,i64::MIN), each spelled as integer or as float" fns=js_op::abstract_div,js_op::to_number stubs=2 replay=generic timeout=300
+    //@ desc="abstract_div on JSON numbers = IEEE division of their doubles (real conversions)"
+    arith_numbers_harness!(k_c10_div_numbers, 1);
+    //@ob name=C10.abstract_mod.numbers harness=k_c10_mod_numbers props=C10,C01 strength=bounded bound="operands: 10 integers (0,1,2,3,-7,10,2^53,2^53+1,i64::MAX,i64::MIN), each spelled as integer or as float" fns=js_op::abstract_mod,js_op::to_number stubs=2 replay=generic timeout=300
+    //@ desc="abstract_mod on JSON numbers = truncated remainder of their doubles (real conversions): 9007199254740993 % 2 is 0"
+    arith_numbers_harness!(k_c10_mod_numbers, 2);
+
     // =====================================================================================
     // Folds (C10): `+`/`*` fold parseFloat conversions from 0/1; max/min fold Number conversions.
     // Conversions by contract (planned Option<f64> per operand address).
@@ -1321,6 +1377,94 @@ pub(crate) mod verif_js_op {
     pub(crate) fn k_c07_s2n_infinity() {
         body_str_to_number_words();
     }
+    /// JavaScript parseFloat on ASCII bytes: skip leading whitespace, then the LONGEST prefix that is a
+    /// StrDecimalLiteral ([+-]? digits[.digits][exp] | [+-]? .digits[exp]); None when there is none.
+    /// Written as "try every prefix, longest first" - deliberately not a single-pass scanner.
+    fn js_parse_float_prefix(s: &[u8]) -> Option<(usize, usize)> {
+        let mut lo = 0;
+        while lo < s.len() && is_js_space(s[lo]) {
+            lo += 1;
+        }
+        let mut hi = s.len();
+        while hi > lo {
+            if is_unsigned_decimal(strip_sign(&s[lo..hi])) {
+                return Some((lo, hi));
+            }
+            hi -= 1;
+        }
+        None
+    }
+    pub(crate) fn body_parse_float_string<const N: usize>(alphabet: &[u8]) {
+        let mut s = String::with_capacity(N + 1);
+        let mut j = 0;
+        while j < N {
+            s.push('a');
+            j += 1;
+        }
+        let mut bytes = [0u8; N];
+        let mut i = 0;
+        while i < N {
+            let sel: usize = kani::any();
+            kani::assume(sel < alphabet.len());
+            bytes[i] = alphabet[sel];
+            unsafe { s.as_bytes_mut()[i] = bytes[i] };
+            i += 1;
+        }
+        let plan: f64 = kani::any();
+        kani::assume(!plan.is_nan());
+        unsafe { FS_PLAN = plan };
+        let s = MD::new(s);
+        #[cfg(verif_replay)]
+        eprintln!("REPLAY-INPUT: parse_float(\"{}\")", s.as_str());
+        let r = parse_float_string(&s);
+        kani::cover!(true, "returned");
+        match js_parse_float_prefix(&bytes) {
+            None => assert!(r.is_none(), "parse_float_string: a number although the string has no numeric prefix (JavaScript parseFloat gives NaN)"),
+            Some((lo, hi)) => {
+                #[cfg(kani)]
+                {
+                    assert!(r == Some(plan), "parse_float_string: error although the string has a numeric prefix (\"12px\" is 12, \"1-2\" is 1, \"1e+\" is 1)");
+                    // the prefix handed to the float parser must denote the same decimal literal
+                    let n = unsafe { FS_ARG_LEN };
+                    assert!(n == hi - lo, "parse_float_string: not the longest numeric prefix");
+                    let mut k = 0;
+                    while k < n {
+                        assert!(unsafe { FS_ARG[k] } == bytes[lo + k], "parse_float_string: converted something other than the numeric prefix");
+                        k += 1;
+                    }
+                }
+                #[cfg(verif_replay)]
+                {
+                    let expect = std::str::from_utf8(&bytes[lo..hi]).unwrap().parse::<f64>().ok();
+                    assert!(r == expect && r.is_some(), "parse_float_string: error (or a different value) although the string has a numeric prefix");
+                }
+            }
+        }
+    }
+    const ALPHA_PF: [u8; 11] = [b'0', b'1', b'9', b'.', b'-', b'+', b'e', b'E', b' ', b'p', b'x'];
+    macro_rules! pfs_harness {
+        ($name:ident, $n:expr) => {
+            #[cfg_attr(kani, kani::proof)]
+            #[cfg_attr(kani, kani::unwind(20))]
+            #[cfg_attr(kani, kani::stub(<f64 as std::str::FromStr>::from_str, from_str_stub))]
+            pub(crate) fn $name() {
+                body_parse_float_string::<$n>(&ALPHA_PF);
+            }
+        };
+    }
+    //@ob name=C10.parse_float_string.1 harness=k_c10_pfs_1 props=C10 strength=bounded bound="every 1-character string over {0 1 9 . - + e E space p x}" fns=js_op::parse_float_string stubs=1 replay=generic timeout=400
+    //@ desc="parse_float_string(s) == JavaScript parseFloat(s): the longest decimal-literal prefix after leading whitespace, by from_str (assumed contract); None when there is none"
+    pfs_harness!(k_c10_pfs_1, 1);
+    //@ob name=C10.parse_float_string.2 harness=k_c10_pfs_2 props=C10 strength=bounded bound="every 2-character string over {0 1 9 . - + e E space p x}" fns=js_op::parse_float_string stubs=1 replay=generic timeout=400
+    //@ desc="parse_float_string on all 2-character strings of the alphabet"
+    pfs_harness!(k_c10_pfs_2, 2);
+    //@ob name=C10.parse_float_string.3 harness=k_c10_pfs_3 props=C10 strength=bounded bound="every 3-character string over {0 1 9 . - + e E space p x}" fns=js_op::parse_float_string stubs=1 replay=generic timeout=600
+    //@ desc="parse_float_string on all 3-character strings of the alphabet (\"1-2\", \"1e+\", \"1.e\", \" .5\", ...)"
+    pfs_harness!(k_c10_pfs_3, 3);
+    //@ob name=C10.parse_float_string.4 harness=k_c10_pfs_4 props=C10 tier=thorough strength=bounded bound="every 4-character string over {0 1 9 . - + e E space p x}" fns=js_op::parse_float_string stubs=1 replay=generic timeout=900
+    //@ desc="parse_float_string on all 4-character strings of the alphabet (\"1e5.\", \"12px\", \"1e+1\", ...)"
+    pfs_harness!(k_c10_pfs_4, 4);
+
 //@GENERATED-S2N
     //@ob name=C07.str_to_number.num.0 harness=k_c07_s2n_num_0 props=C07,C09,C10 tier=quick strength=bounded bound="every string of exactly 0 characters over the alphabet {0 1 9 . - + e E space tab x a}" fns=js_op::str_to_number stubs=1 replay=generic timeout=300
     //@ desc="str_to_number(s) == ECMAScript StringToNumber(s): surrounding whitespace ignored, \"\" is 0, only `Infinity` spelled that way, 0x/0o/0b literals honoured (unsigned), decimal literals by from_str (assumed contract), anything else non-numeric"
@@ -1378,10 +1522,16 @@ pub(crate) mod verif_js_op {
     s2n_harness!(k_c07_s2n_radix_5, 5, ALPHA_RADIX);
 //@END-GENERATED-S2N
 
+    /// contract stub for `parse_float_string` in the comparison harnesses: parseFloat of a string is NOT its
+    /// Number() conversion - an independent arbitrary value
+    pub(crate) fn pfs_any_stub(_val: &String) -> Option<f64> {
+        if kani::any() { Some(kani::any()) } else { None }
+    }
     macro_rules! pair_harness {
         ($name:ident, $body:ident, $ka:expr, $kb:expr) => {
             #[cfg_attr(kani, kani::proof)]
             #[cfg_attr(kani, kani::stub(crate::js_op::str_to_number, s2n_stub))]
+            #[cfg_attr(kani, kani::stub(crate::js_op::parse_float_string, pfs_any_stub))]
             #[cfg_attr(kani, kani::stub(crate::js_op::to_string, to_string_stub))]
             #[cfg_attr(kani, kani::stub(std::fmt::format, crate::verif_support::fmt_stub))]
             pub(crate) fn $name() {
@@ -1390,238 +1540,238 @@ pub(crate) mod verif_js_op {
         };
     }
 //@GENERATED-PAIRS
-    //@ob name=C07.abstract_eq.null_null harness=k_c07_eq_null_null props=C07,C01 strength=complete fns=js_op::abstract_eq,js_op::abstract_ne stubs=3 timeout=240 replay=generic
+    //@ob name=C07.abstract_eq.null_null harness=k_c07_eq_null_null props=C07,C01 strength=complete fns=js_op::abstract_eq,js_op::abstract_ne stubs=4 timeout=240 replay=generic
     //@ desc="abstract_eq(NULL,NULL) == ES 7.2.14 for every value of these kinds (all i64/u64/finite f64, all bools; string->number and container->string by contract), symmetric, abstract_ne is its negation, no panic"
     pair_harness!(k_c07_eq_null_null, body_abstract_eq, K_NULL, K_NULL);
-    //@ob name=C08.strict_eq.null_null harness=k_c08_seq_null_null props=C08,C01 strength=complete fns=js_op::strict_eq,js_op::strict_ne stubs=3 timeout=240 replay=generic
+    //@ob name=C08.strict_eq.null_null harness=k_c08_seq_null_null props=C08,C01 strength=complete fns=js_op::strict_eq,js_op::strict_ne stubs=4 timeout=240 replay=generic
     //@ desc="strict_eq(NULL,NULL) (distinct instances) == same primitive type and value; symmetric; strict_ne negation; === implies =="
     pair_harness!(k_c08_seq_null_null, body_strict_eq, K_NULL, K_NULL);
-    //@ob name=C09.rel.null_null harness=k_c09_rel_null_null props=C09 strength=complete fns=js_op::abstract_lt,js_op::abstract_lte,js_op::abstract_gt,js_op::abstract_gte stubs=3 timeout=240 replay=generic
+    //@ob name=C09.rel.null_null harness=k_c09_rel_null_null props=C09 strength=complete fns=js_op::abstract_lt,js_op::abstract_lte,js_op::abstract_gt,js_op::abstract_gte stubs=4 timeout=240 replay=generic
     //@ desc="lt/lte(NULL,NULL) == ES relational comparison on converted operands (NaN => false); gt(b,a)==lt(a,b); gte(b,a)==lte(a,b)"
     pair_harness!(k_c09_rel_null_null, body_rel, K_NULL, K_NULL);
-    //@ob name=C07.abstract_eq.null_bool harness=k_c07_eq_null_bool props=C07,C01 strength=complete fns=js_op::abstract_eq,js_op::abstract_ne stubs=3 timeout=240 replay=generic
+    //@ob name=C07.abstract_eq.null_bool harness=k_c07_eq_null_bool props=C07,C01 strength=complete fns=js_op::abstract_eq,js_op::abstract_ne stubs=4 timeout=240 replay=generic
     //@ desc="abstract_eq(NULL,BOOL) == ES 7.2.14 for every value of these kinds (all i64/u64/finite f64, all bools; string->number and container->string by contract), symmetric, abstract_ne is its negation, no panic"
     pair_harness!(k_c07_eq_null_bool, body_abstract_eq, K_NULL, K_BOOL);
-    //@ob name=C08.strict_eq.null_bool harness=k_c08_seq_null_bool props=C08,C01 strength=complete fns=js_op::strict_eq,js_op::strict_ne stubs=3 timeout=240 replay=generic
+    //@ob name=C08.strict_eq.null_bool harness=k_c08_seq_null_bool props=C08,C01 strength=complete fns=js_op::strict_eq,js_op::strict_ne stubs=4 timeout=240 replay=generic
     //@ desc="strict_eq(NULL,BOOL) (distinct instances) == same primitive type and value; symmetric; strict_ne negation; === implies =="
     pair_harness!(k_c08_seq_null_bool, body_strict_eq, K_NULL, K_BOOL);
-    //@ob name=C09.rel.null_bool harness=k_c09_rel_null_bool props=C09 strength=complete fns=js_op::abstract_lt,js_op::abstract_lte,js_op::abstract_gt,js_op::abstract_gte stubs=3 timeout=240 replay=generic
+    //@ob name=C09.rel.null_bool harness=k_c09_rel_null_bool props=C09 strength=complete fns=js_op::abstract_lt,js_op::abstract_lte,js_op::abstract_gt,js_op::abstract_gte stubs=4 timeout=240 replay=generic
     //@ desc="lt/lte(NULL,BOOL) == ES relational comparison on converted operands (NaN => false); gt(b,a)==lt(a,b); gte(b,a)==lte(a,b)"
     pair_harness!(k_c09_rel_null_bool, body_rel, K_NULL, K_BOOL);
-    //@ob name=C07.abstract_eq.null_num harness=k_c07_eq_null_num props=C07,C01 strength=complete fns=js_op::abstract_eq,js_op::abstract_ne stubs=3 timeout=240 replay=generic
+    //@ob name=C07.abstract_eq.null_num harness=k_c07_eq_null_num props=C07,C01 strength=complete fns=js_op::abstract_eq,js_op::abstract_ne stubs=4 timeout=240 replay=generic
     //@ desc="abstract_eq(NULL,NUM) == ES 7.2.14 for every value of these kinds (all i64/u64/finite f64, all bools; string->number and container->string by contract), symmetric, abstract_ne is its negation, no panic"
     pair_harness!(k_c07_eq_null_num, body_abstract_eq, K_NULL, K_NUM);
-    //@ob name=C08.strict_eq.null_num harness=k_c08_seq_null_num props=C08,C01 strength=complete fns=js_op::strict_eq,js_op::strict_ne stubs=3 timeout=240 replay=generic
+    //@ob name=C08.strict_eq.null_num harness=k_c08_seq_null_num props=C08,C01 strength=complete fns=js_op::strict_eq,js_op::strict_ne stubs=4 timeout=240 replay=generic
     //@ desc="strict_eq(NULL,NUM) (distinct instances) == same primitive type and value; symmetric; strict_ne negation; === implies =="
     pair_harness!(k_c08_seq_null_num, body_strict_eq, K_NULL, K_NUM);
-    //@ob name=C09.rel.null_num harness=k_c09_rel_null_num props=C09 strength=complete fns=js_op::abstract_lt,js_op::abstract_lte,js_op::abstract_gt,js_op::abstract_gte stubs=3 timeout=240 replay=generic
+    //@ob name=C09.rel.null_num harness=k_c09_rel_null_num props=C09 strength=complete fns=js_op::abstract_lt,js_op::abstract_lte,js_op::abstract_gt,js_op::abstract_gte stubs=4 timeout=240 replay=generic
     //@ desc="lt/lte(NULL,NUM) == ES relational comparison on converted operands (NaN => false); gt(b,a)==lt(a,b); gte(b,a)==lte(a,b)"
     pair_harness!(k_c09_rel_null_num, body_rel, K_NULL, K_NUM);
-    //@ob name=C07.abstract_eq.null_str harness=k_c07_eq_null_str props=C07,C01 strength=complete fns=js_op::abstract_eq,js_op::abstract_ne stubs=3 timeout=240 replay=generic
+    //@ob name=C07.abstract_eq.null_str harness=k_c07_eq_null_str props=C07,C01 strength=complete fns=js_op::abstract_eq,js_op::abstract_ne stubs=4 timeout=240 replay=generic
     //@ desc="abstract_eq(NULL,STR) == ES 7.2.14 for every value of these kinds (all i64/u64/finite f64, all bools; string->number and container->string by contract), symmetric, abstract_ne is its negation, no panic"
     pair_harness!(k_c07_eq_null_str, body_abstract_eq, K_NULL, K_STR);
-    //@ob name=C08.strict_eq.null_str harness=k_c08_seq_null_str props=C08,C01 strength=complete fns=js_op::strict_eq,js_op::strict_ne stubs=3 timeout=240 replay=generic
+    //@ob name=C08.strict_eq.null_str harness=k_c08_seq_null_str props=C08,C01 strength=complete fns=js_op::strict_eq,js_op::strict_ne stubs=4 timeout=240 replay=generic
     //@ desc="strict_eq(NULL,STR) (distinct instances) == same primitive type and value; symmetric; strict_ne negation; === implies =="
     pair_harness!(k_c08_seq_null_str, body_strict_eq, K_NULL, K_STR);
-    //@ob name=C09.rel.null_str harness=k_c09_rel_null_str props=C09 strength=complete fns=js_op::abstract_lt,js_op::abstract_lte,js_op::abstract_gt,js_op::abstract_gte stubs=3 timeout=240 replay=generic
+    //@ob name=C09.rel.null_str harness=k_c09_rel_null_str props=C09 strength=complete fns=js_op::abstract_lt,js_op::abstract_lte,js_op::abstract_gt,js_op::abstract_gte stubs=4 timeout=240 replay=generic
     //@ desc="lt/lte(NULL,STR) == ES relational comparison on converted operands (NaN => false); gt(b,a)==lt(a,b); gte(b,a)==lte(a,b)"
     pair_harness!(k_c09_rel_null_str, body_rel, K_NULL, K_STR);
-    //@ob name=C07.abstract_eq.null_arr harness=k_c07_eq_null_arr props=C07,C01 strength=complete fns=js_op::abstract_eq,js_op::abstract_ne stubs=3 timeout=240 replay=generic
+    //@ob name=C07.abstract_eq.null_arr harness=k_c07_eq_null_arr props=C07,C01 strength=complete fns=js_op::abstract_eq,js_op::abstract_ne stubs=4 timeout=240 replay=generic
     //@ desc="abstract_eq(NULL,ARR) == ES 7.2.14 for every value of these kinds (all i64/u64/finite f64, all bools; string->number and container->string by contract), symmetric, abstract_ne is its negation, no panic"
     pair_harness!(k_c07_eq_null_arr, body_abstract_eq, K_NULL, K_ARR);
-    //@ob name=C08.strict_eq.null_arr harness=k_c08_seq_null_arr props=C08,C01 strength=complete fns=js_op::strict_eq,js_op::strict_ne stubs=3 timeout=240 replay=generic
+    //@ob name=C08.strict_eq.null_arr harness=k_c08_seq_null_arr props=C08,C01 strength=complete fns=js_op::strict_eq,js_op::strict_ne stubs=4 timeout=240 replay=generic
     //@ desc="strict_eq(NULL,ARR) (distinct instances) == same primitive type and value; symmetric; strict_ne negation; === implies =="
     pair_harness!(k_c08_seq_null_arr, body_strict_eq, K_NULL, K_ARR);
-    //@ob name=C09.rel.null_arr harness=k_c09_rel_null_arr props=C09 strength=complete fns=js_op::abstract_lt,js_op::abstract_lte,js_op::abstract_gt,js_op::abstract_gte stubs=3 timeout=240 replay=generic
+    //@ob name=C09.rel.null_arr harness=k_c09_rel_null_arr props=C09 strength=complete fns=js_op::abstract_lt,js_op::abstract_lte,js_op::abstract_gt,js_op::abstract_gte stubs=4 timeout=240 replay=generic
     //@ desc="lt/lte(NULL,ARR) == ES relational comparison on converted operands (NaN => false); gt(b,a)==lt(a,b); gte(b,a)==lte(a,b)"
     pair_harness!(k_c09_rel_null_arr, body_rel, K_NULL, K_ARR);
-    //@ob name=C07.abstract_eq.null_obj harness=k_c07_eq_null_obj props=C07,C01 strength=complete fns=js_op::abstract_eq,js_op::abstract_ne stubs=3 timeout=240 replay=generic
+    //@ob name=C07.abstract_eq.null_obj harness=k_c07_eq_null_obj props=C07,C01 strength=complete fns=js_op::abstract_eq,js_op::abstract_ne stubs=4 timeout=240 replay=generic
     //@ desc="abstract_eq(NULL,OBJ) == ES 7.2.14 for every value of these kinds (all i64/u64/finite f64, all bools; string->number and container->string by contract), symmetric, abstract_ne is its negation, no panic"
     pair_harness!(k_c07_eq_null_obj, body_abstract_eq, K_NULL, K_OBJ);
-    //@ob name=C08.strict_eq.null_obj harness=k_c08_seq_null_obj props=C08,C01 strength=complete fns=js_op::strict_eq,js_op::strict_ne stubs=3 timeout=240 replay=generic
+    //@ob name=C08.strict_eq.null_obj harness=k_c08_seq_null_obj props=C08,C01 strength=complete fns=js_op::strict_eq,js_op::strict_ne stubs=4 timeout=240 replay=generic
     //@ desc="strict_eq(NULL,OBJ) (distinct instances) == same primitive type and value; symmetric; strict_ne negation; === implies =="
     pair_harness!(k_c08_seq_null_obj, body_strict_eq, K_NULL, K_OBJ);
-    //@ob name=C09.rel.null_obj harness=k_c09_rel_null_obj props=C09 strength=complete fns=js_op::abstract_lt,js_op::abstract_lte,js_op::abstract_gt,js_op::abstract_gte stubs=3 timeout=240 replay=generic
+    //@ob name=C09.rel.null_obj harness=k_c09_rel_null_obj props=C09 strength=complete fns=js_op::abstract_lt,js_op::abstract_lte,js_op::abstract_gt,js_op::abstract_gte stubs=4 timeout=240 replay=generic
     //@ desc="lt/lte(NULL,OBJ) == ES relational comparison on converted operands (NaN => false); gt(b,a)==lt(a,b); gte(b,a)==lte(a,b)"
     pair_harness!(k_c09_rel_null_obj, body_rel, K_NULL, K_OBJ);
-    //@ob name=C09.rel.bool_null harness=k_c09_rel_bool_null props=C09 strength=complete fns=js_op::abstract_lt,js_op::abstract_lte,js_op::abstract_gt,js_op::abstract_gte stubs=3 timeout=240 replay=generic
+    //@ob name=C09.rel.bool_null harness=k_c09_rel_bool_null props=C09 strength=complete fns=js_op::abstract_lt,js_op::abstract_lte,js_op::abstract_gt,js_op::abstract_gte stubs=4 timeout=240 replay=generic
     //@ desc="lt/lte(BOOL,NULL) == ES relational comparison on converted operands (NaN => false); gt(b,a)==lt(a,b); gte(b,a)==lte(a,b)"
     pair_harness!(k_c09_rel_bool_null, body_rel, K_BOOL, K_NULL);
-    //@ob name=C07.abstract_eq.bool_bool harness=k_c07_eq_bool_bool props=C07,C01 strength=complete fns=js_op::abstract_eq,js_op::abstract_ne stubs=3 timeout=240 replay=generic
+    //@ob name=C07.abstract_eq.bool_bool harness=k_c07_eq_bool_bool props=C07,C01 strength=complete fns=js_op::abstract_eq,js_op::abstract_ne stubs=4 timeout=240 replay=generic
     //@ desc="abstract_eq(BOOL,BOOL) == ES 7.2.14 for every value of these kinds (all i64/u64/finite f64, all bools; string->number and container->string by contract), symmetric, abstract_ne is its negation, no panic"
     pair_harness!(k_c07_eq_bool_bool, body_abstract_eq, K_BOOL, K_BOOL);
-    //@ob name=C08.strict_eq.bool_bool harness=k_c08_seq_bool_bool props=C08,C01 strength=complete fns=js_op::strict_eq,js_op::strict_ne stubs=3 timeout=240 replay=generic
+    //@ob name=C08.strict_eq.bool_bool harness=k_c08_seq_bool_bool props=C08,C01 strength=complete fns=js_op::strict_eq,js_op::strict_ne stubs=4 timeout=240 replay=generic
     //@ desc="strict_eq(BOOL,BOOL) (distinct instances) == same primitive type and value; symmetric; strict_ne negation; === implies =="
     pair_harness!(k_c08_seq_bool_bool, body_strict_eq, K_BOOL, K_BOOL);
-    //@ob name=C09.rel.bool_bool harness=k_c09_rel_bool_bool props=C09 strength=complete fns=js_op::abstract_lt,js_op::abstract_lte,js_op::abstract_gt,js_op::abstract_gte stubs=3 timeout=240 replay=generic
+    //@ob name=C09.rel.bool_bool harness=k_c09_rel_bool_bool props=C09 strength=complete fns=js_op::abstract_lt,js_op::abstract_lte,js_op::abstract_gt,js_op::abstract_gte stubs=4 timeout=240 replay=generic
     //@ desc="lt/lte(BOOL,BOOL) == ES relational comparison on converted operands (NaN => false); gt(b,a)==lt(a,b); gte(b,a)==lte(a,b)"
     pair_harness!(k_c09_rel_bool_bool, body_rel, K_BOOL, K_BOOL);
-    //@ob name=C07.abstract_eq.bool_num harness=k_c07_eq_bool_num props=C07,C01 strength=complete fns=js_op::abstract_eq,js_op::abstract_ne stubs=3 timeout=240 replay=generic
+    //@ob name=C07.abstract_eq.bool_num harness=k_c07_eq_bool_num props=C07,C01 strength=complete fns=js_op::abstract_eq,js_op::abstract_ne stubs=4 timeout=240 replay=generic
     //@ desc="abstract_eq(BOOL,NUM) == ES 7.2.14 for every value of these kinds (all i64/u64/finite f64, all bools; string->number and container->string by contract), symmetric, abstract_ne is its negation, no panic"
     pair_harness!(k_c07_eq_bool_num, body_abstract_eq, K_BOOL, K_NUM);
-    //@ob name=C08.strict_eq.bool_num harness=k_c08_seq_bool_num props=C08,C01 strength=complete fns=js_op::strict_eq,js_op::strict_ne stubs=3 timeout=240 replay=generic
+    //@ob name=C08.strict_eq.bool_num harness=k_c08_seq_bool_num props=C08,C01 strength=complete fns=js_op::strict_eq,js_op::strict_ne stubs=4 timeout=240 replay=generic
     //@ desc="strict_eq(BOOL,NUM) (distinct instances) == same primitive type and value; symmetric; strict_ne negation; === implies =="
     pair_harness!(k_c08_seq_bool_num, body_strict_eq, K_BOOL, K_NUM);
-    //@ob name=C09.rel.bool_num harness=k_c09_rel_bool_num props=C09 strength=complete fns=js_op::abstract_lt,js_op::abstract_lte,js_op::abstract_gt,js_op::abstract_gte stubs=3 timeout=240 replay=generic
+    //@ob name=C09.rel.bool_num harness=k_c09_rel_bool_num props=C09 strength=complete fns=js_op::abstract_lt,js_op::abstract_lte,js_op::abstract_gt,js_op::abstract_gte stubs=4 timeout=240 replay=generic
     //@ desc="lt/lte(BOOL,NUM) == ES relational comparison on converted operands (NaN => false); gt(b,a)==lt(a,b); gte(b,a)==lte(a,b)"
     pair_harness!(k_c09_rel_bool_num, body_rel, K_BOOL, K_NUM);
-    //@ob name=C07.abstract_eq.bool_str harness=k_c07_eq_bool_str props=C07,C01 strength=complete fns=js_op::abstract_eq,js_op::abstract_ne stubs=3 timeout=240 replay=generic
+    //@ob name=C07.abstract_eq.bool_str harness=k_c07_eq_bool_str props=C07,C01 strength=complete fns=js_op::abstract_eq,js_op::abstract_ne stubs=4 timeout=240 replay=generic
     //@ desc="abstract_eq(BOOL,STR) == ES 7.2.14 for every value of these kinds (all i64/u64/finite f64, all bools; string->number and container->string by contract), symmetric, abstract_ne is its negation, no panic"
     pair_harness!(k_c07_eq_bool_str, body_abstract_eq, K_BOOL, K_STR);
-    //@ob name=C08.strict_eq.bool_str harness=k_c08_seq_bool_str props=C08,C01 strength=complete fns=js_op::strict_eq,js_op::strict_ne stubs=3 timeout=240 replay=generic
+    //@ob name=C08.strict_eq.bool_str harness=k_c08_seq_bool_str props=C08,C01 strength=complete fns=js_op::strict_eq,js_op::strict_ne stubs=4 timeout=240 replay=generic
     //@ desc="strict_eq(BOOL,STR) (distinct instances) == same primitive type and value; symmetric; strict_ne negation; === implies =="
     pair_harness!(k_c08_seq_bool_str, body_strict_eq, K_BOOL, K_STR);
-    //@ob name=C09.rel.bool_str harness=k_c09_rel_bool_str props=C09 strength=complete fns=js_op::abstract_lt,js_op::abstract_lte,js_op::abstract_gt,js_op::abstract_gte stubs=3 timeout=240 replay=generic
+    //@ob name=C09.rel.bool_str harness=k_c09_rel_bool_str props=C09 strength=complete fns=js_op::abstract_lt,js_op::abstract_lte,js_op::abstract_gt,js_op::abstract_gte stubs=4 timeout=240 replay=generic
     //@ desc="lt/lte(BOOL,STR) == ES relational comparison on converted operands (NaN => false); gt(b,a)==lt(a,b); gte(b,a)==lte(a,b)"
     pair_harness!(k_c09_rel_bool_str, body_rel, K_BOOL, K_STR);
-    //@ob name=C07.abstract_eq.bool_arr harness=k_c07_eq_bool_arr props=C07,C01 strength=complete fns=js_op::abstract_eq,js_op::abstract_ne stubs=3 timeout=240 replay=generic
+    //@ob name=C07.abstract_eq.bool_arr harness=k_c07_eq_bool_arr props=C07,C01 strength=complete fns=js_op::abstract_eq,js_op::abstract_ne stubs=4 timeout=240 replay=generic
     //@ desc="abstract_eq(BOOL,ARR) == ES 7.2.14 for every value of these kinds (all i64/u64/finite f64, all bools; string->number and container->string by contract), symmetric, abstract_ne is its negation, no panic"
     pair_harness!(k_c07_eq_bool_arr, body_abstract_eq, K_BOOL, K_ARR);
-    //@ob name=C08.strict_eq.bool_arr harness=k_c08_seq_bool_arr props=C08,C01 strength=complete fns=js_op::strict_eq,js_op::strict_ne stubs=3 timeout=240 replay=generic
+    //@ob name=C08.strict_eq.bool_arr harness=k_c08_seq_bool_arr props=C08,C01 strength=complete fns=js_op::strict_eq,js_op::strict_ne stubs=4 timeout=240 replay=generic
     //@ desc="strict_eq(BOOL,ARR) (distinct instances) == same primitive type and value; symmetric; strict_ne negation; === implies =="
     pair_harness!(k_c08_seq_bool_arr, body_strict_eq, K_BOOL, K_ARR);
-    //@ob name=C09.rel.bool_arr harness=k_c09_rel_bool_arr props=C09 strength=complete fns=js_op::abstract_lt,js_op::abstract_lte,js_op::abstract_gt,js_op::abstract_gte stubs=3 timeout=240 replay=generic
+    //@ob name=C09.rel.bool_arr harness=k_c09_rel_bool_arr props=C09 strength=complete fns=js_op::abstract_lt,js_op::abstract_lte,js_op::abstract_gt,js_op::abstract_gte stubs=4 timeout=240 replay=generic
     //@ desc="lt/lte(BOOL,ARR) == ES relational comparison on converted operands (NaN => false); gt(b,a)==lt(a,b); gte(b,a)==lte(a,b)"
     pair_harness!(k_c09_rel_bool_arr, body_rel, K_BOOL, K_ARR);
-    //@ob name=C07.abstract_eq.bool_obj harness=k_c07_eq_bool_obj props=C07,C01 strength=complete fns=js_op::abstract_eq,js_op::abstract_ne stubs=3 timeout=240 replay=generic
+    //@ob name=C07.abstract_eq.bool_obj harness=k_c07_eq_bool_obj props=C07,C01 strength=complete fns=js_op::abstract_eq,js_op::abstract_ne stubs=4 timeout=240 replay=generic
     //@ desc="abstract_eq(BOOL,OBJ) == ES 7.2.14 for every value of these kinds (all i64/u64/finite f64, all bools; string->number and container->string by contract), symmetric, abstract_ne is its negation, no panic"
     pair_harness!(k_c07_eq_bool_obj, body_abstract_eq, K_BOOL, K_OBJ);
-    //@ob name=C08.strict_eq.bool_obj harness=k_c08_seq_bool_obj props=C08,C01 strength=complete fns=js_op::strict_eq,js_op::strict_ne stubs=3 timeout=240 replay=generic
+    //@ob name=C08.strict_eq.bool_obj harness=k_c08_seq_bool_obj props=C08,C01 strength=complete fns=js_op::strict_eq,js_op::strict_ne stubs=4 timeout=240 replay=generic
     //@ desc="strict_eq(BOOL,OBJ) (distinct instances) == same primitive type and value; symmetric; strict_ne negation; === implies =="
     pair_harness!(k_c08_seq_bool_obj, body_strict_eq, K_BOOL, K_OBJ);
-    //@ob name=C09.rel.bool_obj harness=k_c09_rel_bool_obj props=C09 strength=complete fns=js_op::abstract_lt,js_op::abstract_lte,js_op::abstract_gt,js_op::abstract_gte stubs=3 timeout=240 replay=generic
+    //@ob name=C09.rel.bool_obj harness=k_c09_rel_bool_obj props=C09 strength=complete fns=js_op::abstract_lt,js_op::abstract_lte,js_op::abstract_gt,js_op::abstract_gte stubs=4 timeout=240 replay=generic
     //@ desc="lt/lte(BOOL,OBJ) == ES relational comparison on converted operands (NaN => false); gt(b,a)==lt(a,b); gte(b,a)==lte(a,b)"
     pair_harness!(k_c09_rel_bool_obj, body_rel, K_BOOL, K_OBJ);
-    //@ob name=C09.rel.num_null harness=k_c09_rel_num_null props=C09 strength=complete fns=js_op::abstract_lt,js_op::abstract_lte,js_op::abstract_gt,js_op::abstract_gte stubs=3 timeout=240 replay=generic
+    //@ob name=C09.rel.num_null harness=k_c09_rel_num_null props=C09 strength=complete fns=js_op::abstract_lt,js_op::abstract_lte,js_op::abstract_gt,js_op::abstract_gte stubs=4 timeout=240 replay=generic
     //@ desc="lt/lte(NUM,NULL) == ES relational comparison on converted operands (NaN => false); gt(b,a)==lt(a,b); gte(b,a)==lte(a,b)"
     pair_harness!(k_c09_rel_num_null, body_rel, K_NUM, K_NULL);
-    //@ob name=C09.rel.num_bool harness=k_c09_rel_num_bool props=C09 strength=complete fns=js_op::abstract_lt,js_op::abstract_lte,js_op::abstract_gt,js_op::abstract_gte stubs=3 timeout=240 replay=generic
+    //@ob name=C09.rel.num_bool harness=k_c09_rel_num_bool props=C09 strength=complete fns=js_op::abstract_lt,js_op::abstract_lte,js_op::abstract_gt,js_op::abstract_gte stubs=4 timeout=240 replay=generic
     //@ desc="lt/lte(NUM,BOOL) == ES relational comparison on converted operands (NaN => false); gt(b,a)==lt(a,b); gte(b,a)==lte(a,b)"
     pair_harness!(k_c09_rel_num_bool, body_rel, K_NUM, K_BOOL);
-    //@ob name=C07.abstract_eq.num_num harness=k_c07_eq_num_num props=C07,C01 strength=complete fns=js_op::abstract_eq,js_op::abstract_ne stubs=3 timeout=240 replay=generic
+    //@ob name=C07.abstract_eq.num_num harness=k_c07_eq_num_num props=C07,C01 strength=complete fns=js_op::abstract_eq,js_op::abstract_ne stubs=4 timeout=240 replay=generic
     //@ desc="abstract_eq(NUM,NUM) == ES 7.2.14 for every value of these kinds (all i64/u64/finite f64, all bools; string->number and container->string by contract), symmetric, abstract_ne is its negation, no panic"
     pair_harness!(k_c07_eq_num_num, body_abstract_eq, K_NUM, K_NUM);
-    //@ob name=C08.strict_eq.num_num harness=k_c08_seq_num_num props=C08,C01 strength=complete fns=js_op::strict_eq,js_op::strict_ne stubs=3 timeout=240 replay=generic
+    //@ob name=C08.strict_eq.num_num harness=k_c08_seq_num_num props=C08,C01 strength=complete fns=js_op::strict_eq,js_op::strict_ne stubs=4 timeout=240 replay=generic
     //@ desc="strict_eq(NUM,NUM) (distinct instances) == same primitive type and value; symmetric; strict_ne negation; === implies =="
     pair_harness!(k_c08_seq_num_num, body_strict_eq, K_NUM, K_NUM);
-    //@ob name=C09.rel.num_num harness=k_c09_rel_num_num props=C09 strength=complete fns=js_op::abstract_lt,js_op::abstract_lte,js_op::abstract_gt,js_op::abstract_gte stubs=3 timeout=240 replay=generic
+    //@ob name=C09.rel.num_num harness=k_c09_rel_num_num props=C09 strength=complete fns=js_op::abstract_lt,js_op::abstract_lte,js_op::abstract_gt,js_op::abstract_gte stubs=4 timeout=240 replay=generic
     //@ desc="lt/lte(NUM,NUM) == ES relational comparison on converted operands (NaN => false); gt(b,a)==lt(a,b); gte(b,a)==lte(a,b)"
     pair_harness!(k_c09_rel_num_num, body_rel, K_NUM, K_NUM);
-    //@ob name=C07.abstract_eq.num_str harness=k_c07_eq_num_str props=C07,C01 strength=complete fns=js_op::abstract_eq,js_op::abstract_ne stubs=3 timeout=240 replay=generic
+    //@ob name=C07.abstract_eq.num_str harness=k_c07_eq_num_str props=C07,C01 strength=complete fns=js_op::abstract_eq,js_op::abstract_ne stubs=4 timeout=240 replay=generic
     //@ desc="abstract_eq(NUM,STR) == ES 7.2.14 for every value of these kinds (all i64/u64/finite f64, all bools; string->number and container->string by contract), symmetric, abstract_ne is its negation, no panic"
     pair_harness!(k_c07_eq_num_str, body_abstract_eq, K_NUM, K_STR);
-    //@ob name=C08.strict_eq.num_str harness=k_c08_seq_num_str props=C08,C01 strength=complete fns=js_op::strict_eq,js_op::strict_ne stubs=3 timeout=240 replay=generic
+    //@ob name=C08.strict_eq.num_str harness=k_c08_seq_num_str props=C08,C01 strength=complete fns=js_op::strict_eq,js_op::strict_ne stubs=4 timeout=240 replay=generic
     //@ desc="strict_eq(NUM,STR) (distinct instances) == same primitive type and value; symmetric; strict_ne negation; === implies =="
     pair_harness!(k_c08_seq_num_str, body_strict_eq, K_NUM, K_STR);
-    //@ob name=C09.rel.num_str harness=k_c09_rel_num_str props=C09 strength=complete fns=js_op::abstract_lt,js_op::abstract_lte,js_op::abstract_gt,js_op::abstract_gte stubs=3 timeout=240 replay=generic
+    //@ob name=C09.rel.num_str harness=k_c09_rel_num_str props=C09 strength=complete fns=js_op::abstract_lt,js_op::abstract_lte,js_op::abstract_gt,js_op::abstract_gte stubs=4 timeout=240 replay=generic
     //@ desc="lt/lte(NUM,STR) == ES relational comparison on converted operands (NaN => false); gt(b,a)==lt(a,b); gte(b,a)==lte(a,b)"
     pair_harness!(k_c09_rel_num_str, body_rel, K_NUM, K_STR);
-    //@ob name=C07.abstract_eq.num_arr harness=k_c07_eq_num_arr props=C07,C01 strength=complete fns=js_op::abstract_eq,js_op::abstract_ne stubs=3 timeout=240 replay=generic
+    //@ob name=C07.abstract_eq.num_arr harness=k_c07_eq_num_arr props=C07,C01 strength=complete fns=js_op::abstract_eq,js_op::abstract_ne stubs=4 timeout=240 replay=generic
     //@ desc="abstract_eq(NUM,ARR) == ES 7.2.14 for every value of these kinds (all i64/u64/finite f64, all bools; string->number and container->string by contract), symmetric, abstract_ne is its negation, no panic"
     pair_harness!(k_c07_eq_num_arr, body_abstract_eq, K_NUM, K_ARR);
-    //@ob name=C08.strict_eq.num_arr harness=k_c08_seq_num_arr props=C08,C01 strength=complete fns=js_op::strict_eq,js_op::strict_ne stubs=3 timeout=240 replay=generic
+    //@ob name=C08.strict_eq.num_arr harness=k_c08_seq_num_arr props=C08,C01 strength=complete fns=js_op::strict_eq,js_op::strict_ne stubs=4 timeout=240 replay=generic
     //@ desc="strict_eq(NUM,ARR) (distinct instances) == same primitive type and value; symmetric; strict_ne negation; === implies =="
     pair_harness!(k_c08_seq_num_arr, body_strict_eq, K_NUM, K_ARR);
-    //@ob name=C09.rel.num_arr harness=k_c09_rel_num_arr props=C09 strength=complete fns=js_op::abstract_lt,js_op::abstract_lte,js_op::abstract_gt,js_op::abstract_gte stubs=3 timeout=240 replay=generic
+    //@ob name=C09.rel.num_arr harness=k_c09_rel_num_arr props=C09 strength=complete fns=js_op::abstract_lt,js_op::abstract_lte,js_op::abstract_gt,js_op::abstract_gte stubs=4 timeout=240 replay=generic
     //@ desc="lt/lte(NUM,ARR) == ES relational comparison on converted operands (NaN => false); gt(b,a)==lt(a,b); gte(b,a)==lte(a,b)"
     pair_harness!(k_c09_rel_num_arr, body_rel, K_NUM, K_ARR);
-    //@ob name=C07.abstract_eq.num_obj harness=k_c07_eq_num_obj props=C07,C01 strength=complete fns=js_op::abstract_eq,js_op::abstract_ne stubs=3 timeout=240 replay=generic
+    //@ob name=C07.abstract_eq.num_obj harness=k_c07_eq_num_obj props=C07,C01 strength=complete fns=js_op::abstract_eq,js_op::abstract_ne stubs=4 timeout=240 replay=generic
     //@ desc="abstract_eq(NUM,OBJ) == ES 7.2.14 for every value of these kinds (all i64/u64/finite f64, all bools; string->number and container->string by contract), symmetric, abstract_ne is its negation, no panic"
     pair_harness!(k_c07_eq_num_obj, body_abstract_eq, K_NUM, K_OBJ);
-    //@ob name=C08.strict_eq.num_obj harness=k_c08_seq_num_obj props=C08,C01 strength=complete fns=js_op::strict_eq,js_op::strict_ne stubs=3 timeout=240 replay=generic
+    //@ob name=C08.strict_eq.num_obj harness=k_c08_seq_num_obj props=C08,C01 strength=complete fns=js_op::strict_eq,js_op::strict_ne stubs=4 timeout=240 replay=generic
     //@ desc="strict_eq(NUM,OBJ) (distinct instances) == same primitive type and value; symmetric; strict_ne negation; === implies =="
     pair_harness!(k_c08_seq_num_obj, body_strict_eq, K_NUM, K_OBJ);
-    //@ob name=C09.rel.num_obj harness=k_c09_rel_num_obj props=C09 strength=complete fns=js_op::abstract_lt,js_op::abstract_lte,js_op::abstract_gt,js_op::abstract_gte stubs=3 timeout=240 replay=generic
+    //@ob name=C09.rel.num_obj harness=k_c09_rel_num_obj props=C09 strength=complete fns=js_op::abstract_lt,js_op::abstract_lte,js_op::abstract_gt,js_op::abstract_gte stubs=4 timeout=240 replay=generic
     //@ desc="lt/lte(NUM,OBJ) == ES relational comparison on converted operands (NaN => false); gt(b,a)==lt(a,b); gte(b,a)==lte(a,b)"
     pair_harness!(k_c09_rel_num_obj, body_rel, K_NUM, K_OBJ);
-    //@ob name=C09.rel.str_null harness=k_c09_rel_str_null props=C09 strength=complete fns=js_op::abstract_lt,js_op::abstract_lte,js_op::abstract_gt,js_op::abstract_gte stubs=3 timeout=240 replay=generic
+    //@ob name=C09.rel.str_null harness=k_c09_rel_str_null props=C09 strength=complete fns=js_op::abstract_lt,js_op::abstract_lte,js_op::abstract_gt,js_op::abstract_gte stubs=4 timeout=240 replay=generic
     //@ desc="lt/lte(STR,NULL) == ES relational comparison on converted operands (NaN => false); gt(b,a)==lt(a,b); gte(b,a)==lte(a,b)"
     pair_harness!(k_c09_rel_str_null, body_rel, K_STR, K_NULL);
-    //@ob name=C09.rel.str_bool harness=k_c09_rel_str_bool props=C09 strength=complete fns=js_op::abstract_lt,js_op::abstract_lte,js_op::abstract_gt,js_op::abstract_gte stubs=3 timeout=240 replay=generic
+    //@ob name=C09.rel.str_bool harness=k_c09_rel_str_bool props=C09 strength=complete fns=js_op::abstract_lt,js_op::abstract_lte,js_op::abstract_gt,js_op::abstract_gte stubs=4 timeout=240 replay=generic
     //@ desc="lt/lte(STR,BOOL) == ES relational comparison on converted operands (NaN => false); gt(b,a)==lt(a,b); gte(b,a)==lte(a,b)"
     pair_harness!(k_c09_rel_str_bool, body_rel, K_STR, K_BOOL);
-    //@ob name=C09.rel.str_num harness=k_c09_rel_str_num props=C09 strength=complete fns=js_op::abstract_lt,js_op::abstract_lte,js_op::abstract_gt,js_op::abstract_gte stubs=3 timeout=240 replay=generic
+    //@ob name=C09.rel.str_num harness=k_c09_rel_str_num props=C09 strength=complete fns=js_op::abstract_lt,js_op::abstract_lte,js_op::abstract_gt,js_op::abstract_gte stubs=4 timeout=240 replay=generic
     //@ desc="lt/lte(STR,NUM) == ES relational comparison on converted operands (NaN => false); gt(b,a)==lt(a,b); gte(b,a)==lte(a,b)"
     pair_harness!(k_c09_rel_str_num, body_rel, K_STR, K_NUM);
-    //@ob name=C07.abstract_eq.str_str harness=k_c07_eq_str_str props=C07,C01 strength=bounded bound="string / container-string-form contents are 1-character labels" fns=js_op::abstract_eq,js_op::abstract_ne stubs=3 timeout=240 replay=generic
+    //@ob name=C07.abstract_eq.str_str harness=k_c07_eq_str_str props=C07,C01 strength=bounded bound="string / container-string-form contents are 1-character labels" fns=js_op::abstract_eq,js_op::abstract_ne stubs=4 timeout=240 replay=generic
     //@ desc="abstract_eq(STR,STR) == ES 7.2.14 for every value of these kinds (all i64/u64/finite f64, all bools; string->number and container->string by contract), symmetric, abstract_ne is its negation, no panic"
     pair_harness!(k_c07_eq_str_str, body_abstract_eq, K_STR, K_STR);
-    //@ob name=C08.strict_eq.str_str harness=k_c08_seq_str_str props=C08,C01 strength=bounded bound="string / container-string-form contents are 1-character labels" fns=js_op::strict_eq,js_op::strict_ne stubs=3 timeout=240 replay=generic
+    //@ob name=C08.strict_eq.str_str harness=k_c08_seq_str_str props=C08,C01 strength=bounded bound="string / container-string-form contents are 1-character labels" fns=js_op::strict_eq,js_op::strict_ne stubs=4 timeout=240 replay=generic
     //@ desc="strict_eq(STR,STR) (distinct instances) == same primitive type and value; symmetric; strict_ne negation; === implies =="
     pair_harness!(k_c08_seq_str_str, body_strict_eq, K_STR, K_STR);
-    //@ob name=C09.rel.str_str harness=k_c09_rel_str_str props=C09 strength=bounded bound="string / container-string-form contents are 1-character labels" fns=js_op::abstract_lt,js_op::abstract_lte,js_op::abstract_gt,js_op::abstract_gte stubs=3 timeout=240 replay=generic
+    //@ob name=C09.rel.str_str harness=k_c09_rel_str_str props=C09 strength=bounded bound="string / container-string-form contents are 1-character labels" fns=js_op::abstract_lt,js_op::abstract_lte,js_op::abstract_gt,js_op::abstract_gte stubs=4 timeout=240 replay=generic
     //@ desc="lt/lte(STR,STR) == ES relational comparison on converted operands (NaN => false); gt(b,a)==lt(a,b); gte(b,a)==lte(a,b)"
     pair_harness!(k_c09_rel_str_str, body_rel, K_STR, K_STR);
-    //@ob name=C07.abstract_eq.str_arr harness=k_c07_eq_str_arr props=C07,C01 strength=bounded bound="string / container-string-form contents are 1-character labels" fns=js_op::abstract_eq,js_op::abstract_ne stubs=3 timeout=240 replay=generic
+    //@ob name=C07.abstract_eq.str_arr harness=k_c07_eq_str_arr props=C07,C01 strength=bounded bound="string / container-string-form contents are 1-character labels" fns=js_op::abstract_eq,js_op::abstract_ne stubs=4 timeout=240 replay=generic
     //@ desc="abstract_eq(STR,ARR) == ES 7.2.14 for every value of these kinds (all i64/u64/finite f64, all bools; string->number and container->string by contract), symmetric, abstract_ne is its negation, no panic"
     pair_harness!(k_c07_eq_str_arr, body_abstract_eq, K_STR, K_ARR);
-    //@ob name=C08.strict_eq.str_arr harness=k_c08_seq_str_arr props=C08,C01 strength=bounded bound="string / container-string-form contents are 1-character labels" fns=js_op::strict_eq,js_op::strict_ne stubs=3 timeout=240 replay=generic
+    //@ob name=C08.strict_eq.str_arr harness=k_c08_seq_str_arr props=C08,C01 strength=bounded bound="string / container-string-form contents are 1-character labels" fns=js_op::strict_eq,js_op::strict_ne stubs=4 timeout=240 replay=generic
     //@ desc="strict_eq(STR,ARR) (distinct instances) == same primitive type and value; symmetric; strict_ne negation; === implies =="
     pair_harness!(k_c08_seq_str_arr, body_strict_eq, K_STR, K_ARR);
-    //@ob name=C09.rel.str_arr harness=k_c09_rel_str_arr props=C09 strength=bounded bound="string / container-string-form contents are 1-character labels" fns=js_op::abstract_lt,js_op::abstract_lte,js_op::abstract_gt,js_op::abstract_gte stubs=3 timeout=240 replay=generic
+    //@ob name=C09.rel.str_arr harness=k_c09_rel_str_arr props=C09 strength=bounded bound="string / container-string-form contents are 1-character labels" fns=js_op::abstract_lt,js_op::abstract_lte,js_op::abstract_gt,js_op::abstract_gte stubs=4 timeout=240 replay=generic
     //@ desc="lt/lte(STR,ARR) == ES relational comparison on converted operands (NaN => false); gt(b,a)==lt(a,b); gte(b,a)==lte(a,b)"
     pair_harness!(k_c09_rel_str_arr, body_rel, K_STR, K_ARR);
-    //@ob name=C07.abstract_eq.str_obj harness=k_c07_eq_str_obj props=C07,C01 strength=bounded bound="string / container-string-form contents are 1-character labels" fns=js_op::abstract_eq,js_op::abstract_ne stubs=3 timeout=240 replay=generic
+    //@ob name=C07.abstract_eq.str_obj harness=k_c07_eq_str_obj props=C07,C01 strength=bounded bound="string / container-string-form contents are 1-character labels" fns=js_op::abstract_eq,js_op::abstract_ne stubs=4 timeout=240 replay=generic
     //@ desc="abstract_eq(STR,OBJ) == ES 7.2.14 for every value of these kinds (all i64/u64/finite f64, all bools; string->number and container->string by contract), symmetric, abstract_ne is its negation, no panic"
     pair_harness!(k_c07_eq_str_obj, body_abstract_eq, K_STR, K_OBJ);
-    //@ob name=C08.strict_eq.str_obj harness=k_c08_seq_str_obj props=C08,C01 strength=bounded bound="string / container-string-form contents are 1-character labels" fns=js_op::strict_eq,js_op::strict_ne stubs=3 timeout=240 replay=generic
+    //@ob name=C08.strict_eq.str_obj harness=k_c08_seq_str_obj props=C08,C01 strength=bounded bound="string / container-string-form contents are 1-character labels" fns=js_op::strict_eq,js_op::strict_ne stubs=4 timeout=240 replay=generic
     //@ desc="strict_eq(STR,OBJ) (distinct instances) == same primitive type and value; symmetric; strict_ne negation; === implies =="
     pair_harness!(k_c08_seq_str_obj, body_strict_eq, K_STR, K_OBJ);
-    //@ob name=C09.rel.str_obj harness=k_c09_rel_str_obj props=C09 strength=bounded bound="string / container-string-form contents are 1-character labels" fns=js_op::abstract_lt,js_op::abstract_lte,js_op::abstract_gt,js_op::abstract_gte stubs=3 timeout=240 replay=generic
+    //@ob name=C09.rel.str_obj harness=k_c09_rel_str_obj props=C09 strength=bounded bound="string / container-string-form contents are 1-character labels" fns=js_op::abstract_lt,js_op::abstract_lte,js_op::abstract_gt,js_op::abstract_gte stubs=4 timeout=240 replay=generic
     //@ desc="lt/lte(STR,OBJ) == ES relational comparison on converted operands (NaN => false); gt(b,a)==lt(a,b); gte(b,a)==lte(a,b)"
     pair_harness!(k_c09_rel_str_obj, body_rel, K_STR, K_OBJ);
-    //@ob name=C09.rel.arr_null harness=k_c09_rel_arr_null props=C09 strength=complete fns=js_op::abstract_lt,js_op::abstract_lte,js_op::abstract_gt,js_op::abstract_gte stubs=3 timeout=240 replay=generic
+    //@ob name=C09.rel.arr_null harness=k_c09_rel_arr_null props=C09 strength=complete fns=js_op::abstract_lt,js_op::abstract_lte,js_op::abstract_gt,js_op::abstract_gte stubs=4 timeout=240 replay=generic
     //@ desc="lt/lte(ARR,NULL) == ES relational comparison on converted operands (NaN => false); gt(b,a)==lt(a,b); gte(b,a)==lte(a,b)"
     pair_harness!(k_c09_rel_arr_null, body_rel, K_ARR, K_NULL);
-    //@ob name=C09.rel.arr_bool harness=k_c09_rel_arr_bool props=C09 strength=complete fns=js_op::abstract_lt,js_op::abstract_lte,js_op::abstract_gt,js_op::abstract_gte stubs=3 timeout=240 replay=generic
+    //@ob name=C09.rel.arr_bool harness=k_c09_rel_arr_bool props=C09 strength=complete fns=js_op::abstract_lt,js_op::abstract_lte,js_op::abstract_gt,js_op::abstract_gte stubs=4 timeout=240 replay=generic
     //@ desc="lt/lte(ARR,BOOL) == ES relational comparison on converted operands (NaN => false); gt(b,a)==lt(a,b); gte(b,a)==lte(a,b)"
     pair_harness!(k_c09_rel_arr_bool, body_rel, K_ARR, K_BOOL);
-    //@ob name=C09.rel.arr_num harness=k_c09_rel_arr_num props=C09 strength=complete fns=js_op::abstract_lt,js_op::abstract_lte,js_op::abstract_gt,js_op::abstract_gte stubs=3 timeout=240 replay=generic
+    //@ob name=C09.rel.arr_num harness=k_c09_rel_arr_num props=C09 strength=complete fns=js_op::abstract_lt,js_op::abstract_lte,js_op::abstract_gt,js_op::abstract_gte stubs=4 timeout=240 replay=generic
     //@ desc="lt/lte(ARR,NUM) == ES relational comparison on converted operands (NaN => false); gt(b,a)==lt(a,b); gte(b,a)==lte(a,b)"
     pair_harness!(k_c09_rel_arr_num, body_rel, K_ARR, K_NUM);
-    //@ob name=C09.rel.arr_str harness=k_c09_rel_arr_str props=C09 strength=bounded bound="string / container-string-form contents are 1-character labels" fns=js_op::abstract_lt,js_op::abstract_lte,js_op::abstract_gt,js_op::abstract_gte stubs=3 timeout=240 replay=generic
+    //@ob name=C09.rel.arr_str harness=k_c09_rel_arr_str props=C09 strength=bounded bound="string / container-string-form contents are 1-character labels" fns=js_op::abstract_lt,js_op::abstract_lte,js_op::abstract_gt,js_op::abstract_gte stubs=4 timeout=240 replay=generic
     //@ desc="lt/lte(ARR,STR) == ES relational comparison on converted operands (NaN => false); gt(b,a)==lt(a,b); gte(b,a)==lte(a,b)"
     pair_harness!(k_c09_rel_arr_str, body_rel, K_ARR, K_STR);
-    //@ob name=C07.abstract_eq.arr_arr harness=k_c07_eq_arr_arr props=C07,C01 strength=bounded bound="string / container-string-form contents are 1-character labels" fns=js_op::abstract_eq,js_op::abstract_ne stubs=3 timeout=240 replay=generic
+    //@ob name=C07.abstract_eq.arr_arr harness=k_c07_eq_arr_arr props=C07,C01 strength=bounded bound="string / container-string-form contents are 1-character labels" fns=js_op::abstract_eq,js_op::abstract_ne stubs=4 timeout=240 replay=generic
     //@ desc="abstract_eq(ARR,ARR) == ES 7.2.14 for every value of these kinds (all i64/u64/finite f64, all bools; string->number and container->string by contract), symmetric, abstract_ne is its negation, no panic"
     pair_harness!(k_c07_eq_arr_arr, body_abstract_eq, K_ARR, K_ARR);
-    //@ob name=C08.strict_eq.arr_arr harness=k_c08_seq_arr_arr props=C08,C01 strength=bounded bound="string / container-string-form contents are 1-character labels" fns=js_op::strict_eq,js_op::strict_ne stubs=3 timeout=240 replay=generic
+    //@ob name=C08.strict_eq.arr_arr harness=k_c08_seq_arr_arr props=C08,C01 strength=bounded bound="string / container-string-form contents are 1-character labels" fns=js_op::strict_eq,js_op::strict_ne stubs=4 timeout=240 replay=generic
     //@ desc="strict_eq(ARR,ARR) (distinct instances) == same primitive type and value; symmetric; strict_ne negation; === implies =="
     pair_harness!(k_c08_seq_arr_arr, body_strict_eq, K_ARR, K_ARR);
-    //@ob name=C09.rel.arr_arr harness=k_c09_rel_arr_arr props=C09 strength=bounded bound="string / container-string-form contents are 1-character labels" fns=js_op::abstract_lt,js_op::abstract_lte,js_op::abstract_gt,js_op::abstract_gte stubs=3 timeout=240 replay=generic
+    //@ob name=C09.rel.arr_arr harness=k_c09_rel_arr_arr props=C09 strength=bounded bound="string / container-string-form contents are 1-character labels" fns=js_op::abstract_lt,js_op::abstract_lte,js_op::abstract_gt,js_op::abstract_gte stubs=4 timeout=240 replay=generic
     //@ desc="lt/lte(ARR,ARR) == ES relational comparison on converted operands (NaN => false); gt(b,a)==lt(a,b); gte(b,a)==lte(a,b)"
     pair_harness!(k_c09_rel_arr_arr, body_rel, K_ARR, K_ARR);
-    //@ob name=C07.abstract_eq.arr_obj harness=k_c07_eq_arr_obj props=C07,C01 strength=bounded bound="string / container-string-form contents are 1-character labels" fns=js_op::abstract_eq,js_op::abstract_ne stubs=3 timeout=240 replay=generic
+    //@ob name=C07.abstract_eq.arr_obj harness=k_c07_eq_arr_obj props=C07,C01 strength=bounded bound="string / container-string-form contents are 1-character labels" fns=js_op::abstract_eq,js_op::abstract_ne stubs=4 timeout=240 replay=generic
     //@ desc="abstract_eq(ARR,OBJ) == ES 7.2.14 for every value of these kinds (all i64/u64/finite f64, all bools; string->number and container->string by contract), symmetric, abstract_ne is its negation, no panic"
     pair_harness!(k_c07_eq_arr_obj, body_abstract_eq, K_ARR, K_OBJ);
-    //@ob name=C08.strict_eq.arr_obj harness=k_c08_seq_arr_obj props=C08,C01 strength=bounded bound="string / container-string-form contents are 1-character labels" fns=js_op::strict_eq,js_op::strict_ne stubs=3 timeout=240 replay=generic
+    //@ob name=C08.strict_eq.arr_obj harness=k_c08_seq_arr_obj props=C08,C01 strength=bounded bound="string / container-string-form contents are 1-character labels" fns=js_op::strict_eq,js_op::strict_ne stubs=4 timeout=240 replay=generic
     //@ desc="strict_eq(ARR,OBJ) (distinct instances) == same primitive type and value; symmetric; strict_ne negation; === implies =="
     pair_harness!(k_c08_seq_arr_obj, body_strict_eq, K_ARR, K_OBJ);
-    //@ob name=C09.rel.arr_obj harness=k_c09_rel_arr_obj props=C09 strength=bounded bound="string / container-string-form contents are 1-character labels" fns=js_op::abstract_lt,js_op::abstract_lte,js_op::abstract_gt,js_op::abstract_gte stubs=3 timeout=240 replay=generic
+    //@ob name=C09.rel.arr_obj harness=k_c09_rel_arr_obj props=C09 strength=bounded bound="string / container-string-form contents are 1-character labels" fns=js_op::abstract_lt,js_op::abstract_lte,js_op::abstract_gt,js_op::abstract_gte stubs=4 timeout=240 replay=generic
     //@ desc="lt/lte(ARR,OBJ) == ES relational comparison on converted operands (NaN => false); gt(b,a)==lt(a,b); gte(b,a)==lte(a,b)"
     pair_harness!(k_c09_rel_arr_obj, body_rel, K_ARR, K_OBJ);
-    //@ob name=C09.rel.obj_null harness=k_c09_rel_obj_null props=C09 strength=complete fns=js_op::abstract_lt,js_op::abstract_lte,js_op::abstract_gt,js_op::abstract_gte stubs=3 timeout=240 replay=generic
+    //@ob name=C09.rel.obj_null harness=k_c09_rel_obj_null props=C09 strength=complete fns=js_op::abstract_lt,js_op::abstract_lte,js_op::abstract_gt,js_op::abstract_gte stubs=4 timeout=240 replay=generic
     //@ desc="lt/lte(OBJ,NULL) == ES relational comparison on converted operands (NaN => false); gt(b,a)==lt(a,b); gte(b,a)==lte(a,b)"
     pair_harness!(k_c09_rel_obj_null, body_rel, K_OBJ, K_NULL);
-    //@ob name=C09.rel.obj_bool harness=k_c09_rel_obj_bool props=C09 strength=complete fns=js_op::abstract_lt,js_op::abstract_lte,js_op::abstract_gt,js_op::abstract_gte stubs=3 timeout=240 replay=generic
+    //@ob name=C09.rel.obj_bool harness=k_c09_rel_obj_bool props=C09 strength=complete fns=js_op::abstract_lt,js_op::abstract_lte,js_op::abstract_gt,js_op::abstract_gte stubs=4 timeout=240 replay=generic
     //@ desc="lt/lte(OBJ,BOOL) == ES relational comparison on converted operands (NaN => false); gt(b,a)==lt(a,b); gte(b,a)==lte(a,b)"
     pair_harness!(k_c09_rel_obj_bool, body_rel, K_OBJ, K_BOOL);
-    //@ob name=C09.rel.obj_num harness=k_c09_rel_obj_num props=C09 strength=complete fns=js_op::abstract_lt,js_op::abstract_lte,js_op::abstract_gt,js_op::abstract_gte stubs=3 timeout=240 replay=generic
+    //@ob name=C09.rel.obj_num harness=k_c09_rel_obj_num props=C09 strength=complete fns=js_op::abstract_lt,js_op::abstract_lte,js_op::abstract_gt,js_op::abstract_gte stubs=4 timeout=240 replay=generic
     //@ desc="lt/lte(OBJ,NUM) == ES relational comparison on converted operands (NaN => false); gt(b,a)==lt(a,b); gte(b,a)==lte(a,b)"
     pair_harness!(k_c09_rel_obj_num, body_rel, K_OBJ, K_NUM);
-    //@ob name=C09.rel.obj_str harness=k_c09_rel_obj_str props=C09 strength=bounded bound="string / container-string-form contents are 1-character labels" fns=js_op::abstract_lt,js_op::abstract_lte,js_op::abstract_gt,js_op::abstract_gte stubs=3 timeout=240 replay=generic
+    //@ob name=C09.rel.obj_str harness=k_c09_rel_obj_str props=C09 strength=bounded bound="string / container-string-form contents are 1-character labels" fns=js_op::abstract_lt,js_op::abstract_lte,js_op::abstract_gt,js_op::abstract_gte stubs=4 timeout=240 replay=generic
     //@ desc="lt/lte(OBJ,STR) == ES relational comparison on converted operands (NaN => false); gt(b,a)==lt(a,b); gte(b,a)==lte(a,b)"
     pair_harness!(k_c09_rel_obj_str, body_rel, K_OBJ, K_STR);
-    //@ob name=C09.rel.obj_arr harness=k_c09_rel_obj_arr props=C09 strength=bounded bound="string / container-string-form contents are 1-character labels" fns=js_op::abstract_lt,js_op::abstract_lte,js_op::abstract_gt,js_op::abstract_gte stubs=3 timeout=240 replay=generic
+    //@ob name=C09.rel.obj_arr harness=k_c09_rel_obj_arr props=C09 strength=bounded bound="string / container-string-form contents are 1-character labels" fns=js_op::abstract_lt,js_op::abstract_lte,js_op::abstract_gt,js_op::abstract_gte stubs=4 timeout=240 replay=generic
     //@ desc="lt/lte(OBJ,ARR) == ES relational comparison on converted operands (NaN => false); gt(b,a)==lt(a,b); gte(b,a)==lte(a,b)"
     pair_harness!(k_c09_rel_obj_arr, body_rel, K_OBJ, K_ARR);
-    //@ob name=C07.abstract_eq.obj_obj harness=k_c07_eq_obj_obj props=C07,C01 strength=bounded bound="string / container-string-form contents are 1-character labels" fns=js_op::abstract_eq,js_op::abstract_ne stubs=3 timeout=240 replay=generic
+    //@ob name=C07.abstract_eq.obj_obj harness=k_c07_eq_obj_obj props=C07,C01 strength=bounded bound="string / container-string-form contents are 1-character labels" fns=js_op::abstract_eq,js_op::abstract_ne stubs=4 timeout=240 replay=generic
     //@ desc="abstract_eq(OBJ,OBJ) == ES 7.2.14 for every value of these kinds (all i64/u64/finite f64, all bools; string->number and container->string by contract), symmetric, abstract_ne is its negation, no panic"
     pair_harness!(k_c07_eq_obj_obj, body_abstract_eq, K_OBJ, K_OBJ);
-    //@ob name=C08.strict_eq.obj_obj harness=k_c08_seq_obj_obj props=C08,C01 strength=bounded bound="string / container-string-form contents are 1-character labels" fns=js_op::strict_eq,js_op::strict_ne stubs=3 timeout=240 replay=generic
+    //@ob name=C08.strict_eq.obj_obj harness=k_c08_seq_obj_obj props=C08,C01 strength=bounded bound="string / container-string-form contents are 1-character labels" fns=js_op::strict_eq,js_op::strict_ne stubs=4 timeout=240 replay=generic
     //@ desc="strict_eq(OBJ,OBJ) (distinct instances) == same primitive type and value; symmetric; strict_ne negation; === implies =="
     pair_harness!(k_c08_seq_obj_obj, body_strict_eq, K_OBJ, K_OBJ);
-    //@ob name=C09.rel.obj_obj harness=k_c09_rel_obj_obj props=C09 strength=bounded bound="string / container-string-form contents are 1-character labels" fns=js_op::abstract_lt,js_op::abstract_lte,js_op::abstract_gt,js_op::abstract_gte stubs=3 timeout=240 replay=generic
+    //@ob name=C09.rel.obj_obj harness=k_c09_rel_obj_obj props=C09 strength=bounded bound="string / container-string-form contents are 1-character labels" fns=js_op::abstract_lt,js_op::abstract_lte,js_op::abstract_gt,js_op::abstract_gte stubs=4 timeout=240 replay=generic
     //@ desc="lt/lte(OBJ,OBJ) == ES relational comparison on converted operands (NaN => false); gt(b,a)==lt(a,b); gte(b,a)==lte(a,b)"
     pair_harness!(k_c09_rel_obj_obj, body_rel, K_OBJ, K_OBJ);
     //@END-GENERATED-PAIRS
